@@ -12,6 +12,22 @@ COMMON_NOTE = ("Trusted base: clang 14's parser/Sema/record layout/CFG, the op2f
                "source, not that the behaviour was observed. ")
 
 CLAIMED = {
+    "C05": {
+        "rules": "R-INDEX with derived class invariants, R-MUSTCALL, R-GUARD, R-TAINT(raw extents, loop progress), R-COPYEXT, R-FSTREAM, R-NOWRAP",
+        "text": "Static analysis of VolFile/ClmFile and the WAV intake: every table subscript reachable from a public entry "
+                "point is entailed to be in range by guard facts plus class invariants derived from the constructors' CFGs "
+                "(m_Count <= m_IndexEntryCount <= m_IndexEntries.size(), m_Count <= m_StringTable.size(), m_Count == "
+                "indexEntries.size()); every per-member call passes the index verifier, which refuses exactly index >= "
+                "count; raw (pointer,size) reads are bounded by the addressed extent; the RIFF chunk walk's cursor cannot "
+                "wrap (termination); member streams and extractions are slices of exactly the recorded extent made by "
+                "the containment-checked slice constructor; the block-header read is preceded by an absolute seek; a "
+                "failed read clears the shared stream's error flags on every exit. Necessary conditions of C05 on all "
+                "byte strings; whole-program memory safety is not claimed.",
+        "note": "Declined: absence of all out-of-bounds accesses (only the listed sink classes), std:: internals, "
+                "resource exhaustion, the header-consistency sums of ReadVolHeader and the 32-bit skip in ReadStringTable "
+                "(both only lead to ordinary read errors). File lengths are assumed below 2^63.",
+        "design": "4/C05",
+    },
     "C12": {
         "rules": "R-ATOMIC, R-NOWRAP, R-CURSOR, R-COUNT, R-MUSTCALL, R-SEQ(helper lengths)",
         "text": "Static analysis (clang AST + CFG must-dataflow) of the memory and slice readers: every bounds guard "
